@@ -56,7 +56,7 @@ func TestChild(t *testing.T) {
 			os.Stdout.WriteString(fmt.Sprintf("S %d %d %s\n", step, who, site))
 		}
 	}
-	go stallWatchdog()
+	go stallWatchdog(spec.Flavour)
 	if spec.Replay != "" {
 		b, err := os.ReadFile(spec.Replay)
 		if err != nil {
@@ -102,7 +102,11 @@ var runActive atomic.Bool
 // clock. A simulated run that makes no progress for 6 s is stuck in a way the cooperative scheduler cannot
 // resolve (an actor spinning on a flag, or blocked on a sync.Mutex, while the goroutine that would release it
 // is parked): the child says so and exits with status 3; the driver counts the run as inconclusive.
-func stallWatchdog() {
+func stallWatchdog(flavour string) {
+	limit := 6 * time.Second
+	if flavour == "auto" {
+		limit = 20 * time.Second // here a stall is reported as a violation: be generous
+	}
 	last, since := kernel.Progress.Load(), time.Now()
 	for {
 		time.Sleep(250 * time.Millisecond)
@@ -111,12 +115,12 @@ func stallWatchdog() {
 			last, since = cur, time.Now()
 			continue
 		}
-		if time.Since(since) > 6*time.Second {
+		if time.Since(since) > limit {
 			buf := make([]byte, 1<<20)
 			n := runtime.Stack(buf, true)
-			why := "an actor is spinning or blocked in a way synctest does not see as blocked"
+			why := "spin: an actor computes or spins without reaching a yield, or is blocked in a way synctest does not see as blocked"
 			if bytes.Contains(buf[:n], []byte("sync.(*Mutex).Lock")) || bytes.Contains(buf[:n], []byte("sync.(*RWMutex)")) {
-				why = "an actor is blocked on a sync mutex held by a parked actor"
+				why = "mutex: an actor is blocked on a sync mutex held by a parked actor"
 			}
 			os.Stdout.WriteString("STALL " + why + "\n")
 			os.Stderr.Write(buf[:n])
